@@ -115,7 +115,8 @@ def run(tier):
     vlib.log("C03 native", round(time.time() - t0, 1))
     # --- (b) dynamic: RotoSem (results + mk/use log) and Own (create/clone/drop events)
     nv, ncf, kinds = semlib.validate(PID, cases, results, verd, ev, "gen", sig_extra={"part": "dynamic"})
-    if ncf * 5 > len(cases):
+    ev.extra["generated_programs_rejected_by_the_compiler"] = ncf
+    if ncf * 50 > len(cases):
         raise vlib.ToolError("generator defect: %d of %d programs rejected by the compiler" % (ncf, len(cases)))
     vlib.log("C03 tracesem", round(time.time() - t0, 1))
     nown, ncalls = own_trace(cases, results, verd, ev)
